@@ -97,9 +97,13 @@ class UniformPrior(Prior):
 
         physical_value = prior.value_for(unit=0.2)
         """
-        return float(round(
-            super().value_for(unit, ignore_prior_limits=ignore_prior_limits), 14
-        ))
+        value = super().value_for(unit, ignore_prior_limits=ignore_prior_limits)
+        rounded = float(round(value, 14))
+        if ignore_prior_limits or self.lower_limit <= rounded <= self.upper_limit:
+            return rounded
+        # Rounding must not move a value that passed the limit check outside of the limits
+        # (limits with more than 14 decimal places, or values so large that rounding overflows).
+        return float(value)
 
     def log_prior_from_value(self, value):
         """
